@@ -69,6 +69,18 @@ def _ev_feeder(m, cfg: CFG, x: str):
         if isinstance(n.ast, ast.Assign) and isinstance(unwrap_await(n.ast.value), ast.Call) and dotted(unwrap_await(n.ast.value).func) == m.pre_param and isinstance(n.ast.targets[0], ast.Name):
             pres.add(n.ast.targets[0].id)
 
+    # locals bound exactly once to `func(...)` (not awaited) and awaited exactly once
+    awaited_locals = {}
+    binds = {}
+    for n in cfg.nodes:
+        if n.kind == 'stmt' and isinstance(n.ast, ast.Assign) and len(n.ast.targets) == 1 and isinstance(n.ast.targets[0], ast.Name) and isinstance(n.ast.value, ast.Call) and dotted(n.ast.value.func) == m.func_param:
+            binds.setdefault(n.ast.targets[0].id, []).append(n.ast.value)
+    for nm, vs in binds.items():
+        # one binding per branch is fine (pending copies of cleanup code aside): all bindings must be calls of func
+        aw = [k for k in cfg.nodes if k.kind == 'stmt' and isinstance(k.ast, ast.Assign) and isinstance(k.ast.value, ast.Await) and is_name(k.ast.value.value, nm)]
+        if aw and m.feeder.is_async:
+            awaited_locals[nm] = (vs[0], aw[0].ast.targets[0].id)
+
     def role(e):
         if isinstance(e, ast.Name):
             if e.id == x:
@@ -103,6 +115,13 @@ def _ev_feeder(m, cfg: CFG, x: str):
             if isinstance(a, ast.Assign) and isinstance(a.targets[0], ast.Name):
                 v = unwrap_await(a.value)
                 tgt = role(a.targets[0])
+                # `coro = func(x); t = await coro` is `t = await func(x)`: the intermediate binding is no event, the
+                # await of it is the submission
+                if isinstance(v, ast.Call) and dotted(v.func) == m.func_param and not isinstance(a.value, ast.Await) and a.targets[0].id in awaited_locals:
+                    # the submission happens (and can fail) here; it is named after the local that receives the awaited value
+                    return f'{role(ast.Name(id=awaited_locals[a.targets[0].id][1], ctx=ast.Load()))}=FUNC({role(v.args[0]) if v.args else ""})'
+                if isinstance(a.value, ast.Await) and isinstance(v, ast.Name) and v.id in awaited_locals:
+                    return None
                 if isinstance(v, ast.Call):
                     d = dotted(v.func) or ''
                     if d == m.func_param:
